@@ -234,18 +234,32 @@ def _depth(m, i):
     return d
 
 
-def build(base, basis, wtree):
-    """a real 2a working tree whose basis is [basis] and whose working state is [wtree]"""
+def build(base, basis, wtree, mid=None):
+    """a real 2a working tree whose first revision rev-1 is [basis] and whose working state is
+    [wtree]; with [mid] a second revision rev-2 (= the tree's basis) holding [mid] is committed in
+    between, so that rev-1 is an OLDER revision than the basis"""
     from breezy import controldir
     wt = controldir.ControlDir.create_standalone_workingtree(
         base, format=controldir.format_registry.make_controldir("2a"))
     wt.set_root_id(b"i0")
-    bm, wm = tmap(basis), tmap(wtree)
+    bm = tmap(basis)
     for e in sorted(basis, key=lambda e: _depth(bm, e[0])):
         p = path_of(bm, e[0])
         _put(os.path.join(base, p), e[3], bytes(e[4]), e[5])
         wt.add([p], ids=[_fid(e[0])])
     wt.commit("basis", rev_id=b"rev-1")
+    if mid is not None:
+        _morph(wt, base, basis, mid)
+        wt.commit("mid", rev_id=b"rev-2")
+        _morph(wt, base, mid, wtree)
+    else:
+        _morph(wt, base, basis, wtree)
+    return wt
+
+
+def _morph(wt, base, basis, wtree):
+    """turn the working state [basis] into [wtree] with versioned renames/removes/adds"""
+    bm, wm = tmap(basis), tmap(wtree)
     for i in sorted(bm):
         if i in wm and (bm[i][1], bm[i][2]) != (wm[i][1], wm[i][2]):
             wt.rename_one(wt.id2path(_fid(i)), "tmp-%d" % i)
@@ -275,7 +289,6 @@ def build(base, basis, wtree):
                     _put(ap, e[3], bytes(e[4]), e[5])
             if e[3] == "f":
                 os.chmod(ap, 0o755 if e[5] else 0o644)
-    return wt
 
 
 def snap(wt):
@@ -302,7 +315,7 @@ def _run_tree(inp):
     sel = {(t, i) for t, i in inp["sel"]}
     base = _fresh()
     try:
-        wt = build(base, basis, wtree)
+        wt = build(base, basis, wtree, inp.get("mid"))
         before = snap(wt)
         if before != sorted([e[0], e[1], e[2], e[3], bytes(e[4]), bool(e[5])] for e in wtree):
             return Err("BuilderMismatch")
@@ -310,7 +323,10 @@ def _run_tree(inp):
         sid, err, offered = None, None, []
         mgr = wt.get_shelf_manager()
         with wt.lock_tree_write():
-            creator = shelf.ShelfCreator(wt, wt.basis_tree())
+            # shelve -r rev-1 when an intermediate revision exists, else against the basis
+            target = (wt.branch.repository.revision_tree(b"rev-1") if inp.get("mid") is not None
+                      else wt.basis_tree())
+            creator = shelf.ShelfCreator(wt, target)
             try:
                 try:
                     for c in creator.iter_shelvable():
@@ -528,12 +544,6 @@ def model_term(inp):
 
 
 # ----------------------------------------------------------------------------- what the model predicts
-def _existing_path(inp):
-    bm, wm = tmap(inp["basis"]), tmap(inp["wt"])
-    wpaths = {path_of(wm, i) for i in wm}
-    return any(t == "del" and i in bm and i not in wm and path_of(bm, i) in wpaths for t, i in inp["sel"])
-
-
 def _shelf_wf(inp):
     _, s = spec_shelve(inp["basis"], inp["wt"], [tuple(x) for x in inp["sel"]])
     return wf(s)
@@ -547,18 +557,14 @@ def impl_obs(inp, obs):
     if inp["kind"] != "tree" or isinstance(obs, Err):
         return obs
     offered, err, after, shelves, ures, unsh = obs
-    if _existing_path(inp):
-        return [offered, Tag("existing-path"), None]
     if not _shelf_wf(inp):
-        return [offered, Tag("shelf-not-wf"), None]
+        return [offered, Tag("shelf-not-wf"), None, None]
     if err is not None:
-        return [offered, err, None]
-    if _path_reuse(inp):
-        return [offered, after, Tag("path-reuse")]
+        return [offered, err, shelves, None]
     if isinstance(ures, Err) or isinstance(unsh, Err) or ures != 0:
-        return [offered, after, Tag("conflict")]
+        return [offered, after, shelves, Tag("conflict")]
     touched = {i for _, i in inp["sel"]}
-    return [offered, after, _mask(unsh, touched)]
+    return [offered, after, shelves, _mask(unsh, touched)]
 
 
 # ----------------------------------------------------------------------------- oracle: the property itself
@@ -674,41 +680,20 @@ def _touched_exec(inp):
     return any(e[0] in touched and e[3] == "f" and e[5] for e in list(inp["basis"]) + list(inp["wt"]))
 
 
-def _path_reuse(inp):
-    """a path of the basis is vacated and re-occupied by another id in the shelf preview"""
-    bm = tmap(inp["basis"])
-    _, s = spec_shelve(inp["basis"], inp["wt"], [tuple(x) for x in inp["sel"]])
-    if not wf(s):
-        return False
-    bp = {path_of(bm, i): i for i in bm}
-    return any(path_of(s, i) in bp and bp[path_of(s, i)] != i for i in s)
-
-
 def finding_matches(fid, inp, obs, why):
     why = why or ""
-    if fid == "C15-id-regex-unanchored":
-        return inp["kind"] == "ids" and why.startswith("ids: get_shelf_ids") and any(
-            n.startswith("shelf-") and not _canon_name(n) for n in inp["names"])
     if inp["kind"] != "tree":
         return False
     if fid == "C15-exec-bit":
         return why.startswith("tree: exec: ") and _touched_exec(inp)
-    if fid == "C15-existing-path":
-        # whatever goes wrong when shelve_deletion re-uses the occupant of the deleted path
-        return _existing_path(inp) and why.startswith("tree: ") and not why.startswith("tree: exec: ")
-    if fid == "C15-stale-shelf":
-        return why.startswith("tree: stale-shelf")
     if fid == "C15-open-selection":
         return (not _shelf_wf(inp)) and (why.startswith("tree: unshelve") or "roundtrip" in why
-                                         or why.startswith("tree: corrupt") or why.startswith("tree: refused")
-                                         or why.startswith("tree: stale-shelf"))
-    if fid == "C15-preview-path-reuse":
-        return _path_reuse(inp) and why.startswith("tree: unshelve-error") and "NoSuchFile" in why
+                                         or why.startswith("tree: corrupt") or why.startswith("tree: refused"))
     return False
 
 
 # ----------------------------------------------------------------------------- generators
-POOL = ["shelf-1", "shelf-2", "shelf-10", "shelf-9", "shelf-01", "shelf-0", "shelf-", "shelf-1x", "shelf-12.bak",
+POOL = ["shelf-1", "shelf-2", "shelf-10", "shelf-9", "shelf-11", "shelf-01", "shelf-0", "shelf-", "shelf-1x", "shelf-12.bak",
         "xshelf-1", "Shelf-1", "shelf-007", "shelf-3~", "shelf--1", "shelf-20"]
 NAMES = ["a", "b", "c"]
 
@@ -720,8 +705,28 @@ ALLKINDS_WT = [[1, 0, "m", "f", b"1\nX\n3\n", False], [2, 0, "d", "d", b"", Fals
                [8, 2, "n", "f", b"n\n", False]]
 
 
+ALLKINDS_MID = [[1, 0, "m", "f", b"1\n2\n3\n4\n", False], [2, 0, "d", "d", b"", False], [3, 2, "r", "f", b"r\n", False],
+                [4, 0, "k", "f", b"k\n", False], [5, 0, "l", "l", b"t1", False], [6, 0, "x", "f", b"x\n", False],
+                [7, 2, "gg", "f", b"g\n", False], [9, 0, "z", "f", b"z\n", False]]
+
+
+def _many(n):
+    return ["shelf-%d" % k for k in range(1, n + 1)]
+
+
 def corpus():
     out = []
+    # >= 10 live shelves: ids must be compared as numbers, not as names
+    out.append({"kind": "ids", "names": ["shelf-9", "shelf-10"]})
+    out.append({"kind": "ids", "names": _many(11)})
+    out.append({"kind": "idops", "names": [], "ops": [["new"]] * 12 + [["read", 10], ["del", 12], ["new"], ["del", 9], ["new"]]})
+    out.append({"kind": "idops", "names": _many(10), "ops": [["new"], ["read", 10], ["new"], ["del", 11], ["del", 12], ["new"]]})
+    # shelve -r rev-1 with a newer basis rev-2: the shelf must be based on the TARGET revision
+    out.append({"kind": "tree", "basis": [[1, 0, "m", "f", b"1\n2\n", False]], "mid": [[1, 0, "m", "f", b"1\n2\n3\n", False]],
+                "wt": [[1, 0, "m", "f", b"0\n1\n2\n3\n", False]], "sel": [["text", 1]], "textmode": "lines"})
+    out.append({"kind": "tree", "basis": [[1, 0, "a", "f", b"a\n", False]],
+                "mid": [[1, 0, "b", "f", b"a\n", False], [2, 0, "n", "f", b"n\n", False]],
+                "wt": [[1, 0, "c", "f", b"a\n", False], [2, 0, "n", "f", b"n\n", False]], "sel": [["ren", 1]]})
     # finding witnesses / regression inputs
     out.append({"kind": "ids", "names": ["shelf-1", "shelf-1x"]})
     out.append({"kind": "tree", "basis": [], "wt": [[1, 0, "n", "f", b"#!\n", True]], "sel": [["add", 1]]})
@@ -854,6 +859,16 @@ def cases(rng, tier):
             r = rng.random()
             ops.append(["new"] if r < 0.45 else [rng.choice(["del", "del", "read"]), rng.choice([1, 2, 3, 4, 5, 6, 10, 11])])
         yield {"kind": "idops", "names": names, "ops": ops}
+    for _ in range(25 if quick else 250):
+        n0 = rng.randint(8, 13)
+        names = _many(n0)
+        for k in rng.sample(range(1, n0 + 1), rng.randint(0, 2)):
+            names.remove("shelf-%d" % k)
+        ops = []
+        for _ in range(rng.randint(3, 8)):
+            r = rng.random()
+            ops.append(["new"] if r < 0.5 else [rng.choice(["del", "del", "read"]), rng.randint(max(1, n0 - 4), n0 + 3)])
+        yield {"kind": "idops", "names": names, "ops": ops}
     # ---- hunks
     nh = 0
     target = 45 if quick else 220
@@ -878,6 +893,20 @@ def cases(rng, tier):
         subsets = subsets[:7] + rng.sample(subsets[7:], 30) + [subsets[-1]]
     for s in subsets:
         yield {"kind": "tree", "basis": ALLKINDS_BASIS, "wt": ALLKINDS_WT, "sel": [list(x) for x in s],
+               "textmode": rng.choice(["lines", "content"])}
+    # ---- tree: the same with an intermediate commit (shelve -r rev-1)
+    for s in (rng.sample(subsets, 8) if quick else subsets[::3]) + [subsets[-1]]:
+        yield {"kind": "tree", "basis": ALLKINDS_BASIS, "mid": ALLKINDS_MID, "wt": ALLKINDS_WT, "sel": [list(x) for x in s],
+               "textmode": rng.choice(["lines", "content"])}
+    for _ in range(30 if quick else 300):
+        basis = gen_tree(rng, rng.randint(1, 4))
+        mid = mutate(rng, basis, rng.randint(1, 2), 10)
+        wt = mutate(rng, mid, rng.randint(1, 3), 20)
+        off = spec_offered(basis, wt)
+        if not off or len(off) > 6 or mid == basis:
+            continue
+        s = off if rng.random() < 0.5 else sorted(rng.sample(off, rng.randint(1, len(off))))
+        yield {"kind": "tree", "basis": basis, "mid": mid, "wt": wt, "sel": [list(x) for x in s],
                "textmode": rng.choice(["lines", "content"])}
     # ---- tree: random pairs
     for _ in range(110 if quick else 700):
